@@ -91,7 +91,7 @@ type base struct {
 
 func newBase(free bool, seed int64) *base {
 	b := &base{s: sched.New(free), rec: &rec{}, free: free}
-	b.s.Watchdog = 150 * time.Millisecond
+	b.s.Watchdog = 60 * time.Millisecond
 	b.bl = takeBaseline()
 	b.ctx, b.cancel = context.WithCancel(context.Background())
 	if free {
